@@ -385,7 +385,14 @@ func mergeRoots(
 
 			newTree, err := tree.Clone(ctx)
 			if err != nil {
-				if cfg.LogFunc != nil && skipUnreadable {
+				var ae awserr.Error
+				if !(errors.As(err, &ae) && ae.Code() == s3.ErrCodeNoSuchKey && skipUnreadable) {
+					// a transport error or an expired deadline is not "this
+					// version was vacuumed": fail the open instead of silently
+					// returning a view without this version
+					return nil, nil, 0, fmt.Errorf("clone for merging %v: %w", key, err)
+				}
+				if cfg.LogFunc != nil {
 					cfg.LogFunc(fmt.Sprintf("skipping merge un-cloneable tree %v: %v", key, err))
 				}
 				continue
